@@ -64,11 +64,23 @@ def parseStrTok (tok : Str) : Except Err Str :=
   | [] => .error (.py .indexError)                 -- string[0]
   | q :: _ => .ok ((unescape q tok).drop 1).dropLast
 
-/-- `int(string)` as far as it is reachable: a non-empty string of ASCII digits. (CPython's `int`
-    accepts more — signs, `_`, surrounding blanks — on strings `QInteger.check` never produces;
-    `C17.parse_error_kind` shows the `ValueError` branch is unreachable.) -/
+/-- CPython's default `sys.get_int_max_str_digits()`: `int()` of a digit string longer than this raises
+    `ValueError`. It is a parameter of the runtime the interpreter runs on (it can be changed with
+    `sys.set_int_max_str_digits` / `PYTHONINTMAXSTRDIGITS`), not of aw-core; the model fixes the default. -/
+def maxIntDigits : Nat := 4300
+
+/-- `int(string)` as far as it is reachable: a non-empty string of ASCII digits (leading zeros count
+    towards the length limit). CPython's `int` accepts more — signs, `_`, surrounding blanks — on strings
+    `QInteger.check` never produces; whatever it refuses is a `ValueError`. -/
 def pyInt (tok : Str) : Except Err Nat :=
-  if tok ≠ [] ∧ tok.all isDigit = true then .ok (natOfDigits tok) else .error (.py .valueError)
+  if tok ≠ [] ∧ tok.all isDigit = true ∧ tok.length ≤ maxIntDigits then .ok (natOfDigits tok)
+  else .error (.py .valueError)
+
+/-- `QInteger.parse` (repaired): `try: int(string)  except ValueError: raise QueryParseException` -/
+def parseIntTok (tok : Str) : Except Err Nat :=
+  match pyInt tok with
+  | .error (.py .valueError) => .error (.parse "Integer literal is too long")
+  | r => r
 
 /-- accumulate `d[key] = val` on the reversed entry list -/
 def dictSet (acc : List (Str × Tok)) (key : Str) (v : Tok) : List (Str × Tok) :=
@@ -88,7 +100,7 @@ def parseTok (ns : Ns) (fuel : Nat) (ty : Ty) (tok : Str) : Except Err Tok :=
   | 0 => .error .fuel
   | fuel + 1 =>
     match ty with
-    | .int => (pyInt tok).map .int
+    | .int => (parseIntTok tok).map .int
     | .str => (parseStrTok tok).map .str
     | .var => .ok (.var tok (ns.get? tok))
     | .func =>
